@@ -40,6 +40,48 @@ var shapes = []string{
 
 var wraps = []string{"%s", "(%s 1)", "(quasiquote ((unquote %s)))", "(try %s (catch e e))", "(eval (quote %s))", "(macroexpand %s)", "(do (defmacro zm (fn () (quote %s))) (zm))", "(let (f (fn () %s)) (f))", "(try 1 (finally %s))", "[%s]", "{:k %s}"}
 
+// function values built in different ways x ways of using them (the value is bound to vf)
+var fnValues = []string{
+	"(fn (x) x)", "(fn (x & r) x)", "(fn () 1)", "(fn [x y] (list x y))", "(with-meta (fn (x) x) {:a 1})", "^{:a 1} (fn (x) x)", "(with-meta (with-meta (fn (x) x) {:a 1}) nil)",
+	"(with-meta (fn (x & r) (list x r)) \"doc\")", "(first (list (fn (x) x)))", "(deref (atom (fn (x) x)))", "(eval (quote (fn (x) x)))", "(memoize (fn (x) x))",
+	"(let (y 1) (fn (x) (+ x y)))", "+", "(with-meta + {:a 1})", "cond", "(with-meta cond {:a 1})", "(with-meta (fn (x) (list (quote quote) x)) {:macro true})",
+	"(meta (with-meta [1] (fn (x) x)))", "(get {:f (fn (x) x)} :f)", "((fn (g) g) (fn (x) x))",
+}
+
+var fnUses = []string{
+	"(vf 1)", "(vf)", "(vf 1 2)", "(vf nil)", "(apply vf [1])", "(apply vf 1 [2])", "(apply vf [])", "(map vf [1 2])", "(map vf [])",
+	"(do (defmacro zm vf) (zm 1))", "(do (defmacro zm vf) (zm))", "(do (defmacro zm vf) (zm 1 2))", "(do (defmacro zm vf) (macroexpand (zm 1)))", "(do (defmacro zm vf) (macroexpand (zm)))",
+	"(do (defmacro zm vf) (let (k 2) (zm k)))", "(do (defmacro zm (with-meta vf {:b 2})) (zm 1))", "(do (defmacro zm vf) (try (zm 1) (catch e e)))",
+	"(do (def zf vf) (zf 1))", "(swap! (atom 1) vf)", "(swap! (atom 1) vf 2)", "(update {:a 1} :a vf)", "(reduce vf 0 [1 2])", "(reduce vf [1 2])",
+	"(deref (future-call vf))", "(deref (future (vf 1)))", "(vf vf)", "((with-meta vf {:b 2}) 1)", "(meta vf)", "(fn? vf)", "(macro? vf)", "(= vf vf)", "(str vf)", "(pr-str vf)",
+	"(try (vf) (catch e e))", "(let (g vf) (g 1))", "(every? vf [1 2])", "(some vf [1 2])", "(run-fn-once vf)", "(vf (vf 1))", "[(vf 1) (vf)]", "{:k (vf)}", "`(~(vf 1) ~@(vf [1]))",
+}
+
+// faults x positions inside try (zf takes one argument, zf2 two, zl is a list, zq a number)
+var tryFaults = []string{"(zf 1 2)", "(zf)", "(zf2 1)", "zz-unbound", "(zz-unbound 1)", "(nth zl 5)", "(throw 1)", "(throw zl)", "(1 2)", "(let 5 1)", "(zm2)", "(apply zf [1 2])", "((fn (& r) (zf)) 1)", "(+ 1 nil)", "(zf e :extra)", "(zf2 e)"}
+
+const tryPrelude = "(def zf (fn (a) a)) (def zf2 (fn (a b) a)) (def zl (list 1 2)) (def zq 3) (defmacro zm2 (fn (a) a)) "
+
+func tryForms(fault string) []string {
+	out := []string{}
+	bodies := []string{fault, "(throw 7)", "1"}
+	handlers := []string{"", "(catch e " + fault + ")", "(catch e " + fault + " 1)", "(catch e 1 " + fault + ")", "(catch e (zf e))", "(catch e e)"}
+	finals := []string{"", "(finally 1)", "(finally zq)", "(finally (count zl))", "(finally " + fault + ")", "(finally (zf 1) zq)"}
+	for _, b := range bodies {
+		for _, h := range handlers {
+			for _, f := range finals {
+				if h == "" && f == "" {
+					continue
+				}
+				out = append(out, strings.Join(strings.Fields("(try "+b+" "+h+" "+f+")"), " "))
+			}
+		}
+	}
+	return out
+}
+
+var tryWraps = []string{"%s", "(try %s (catch e2 e2))", "(let (r (fn () %s)) (r))", "(do %s 1)", "(try %s (finally zq))"}
+
 func formText(head string, ops []string) string {
 	if len(ops) == 0 {
 		return "(" + head + ")"
@@ -69,6 +111,13 @@ var argKinds = []string{"nil", "int", "neg", "big", "str", "kw", "sym", "list", 
 
 func genCase(t *rapid.T) Case {
 	g := tg{t}
+	switch g.pick("kind2", 8) {
+	case 0:
+		return Case{Kind: "text", Text: "(let (vf " + fnValues[g.pick("fnvalue", len(fnValues))] + ") " + fnUses[g.pick("fnuse", len(fnUses))] + ")", GoAST: g.pick("goast", 3) == 0}
+	case 1:
+		fs := tryForms(tryFaults[g.pick("tryfault", len(tryFaults))])
+		return Case{Kind: "text", Text: "(do " + tryPrelude + fmt.Sprintf(tryWraps[g.pick("trywrap", len(tryWraps))], fs[g.pick("tryform", len(fs))]) + ")", GoAST: g.pick("goast", 3) == 0}
+	}
 	switch g.pick("kind", 5) {
 	case 0, 1:
 		f := g.malformed(2)
@@ -415,4 +464,45 @@ func FuzzEvalText(f *testing.F) {
 		}
 		pbt.RunOne(t, P, Case{Kind: "text", Text: s})
 	})
+}
+
+// TestFnValues: every way of building a function value x every way of using it.
+func TestFnValues(t *testing.T) {
+	n := 0
+	for _, f := range fnValues {
+		for _, u := range fnUses {
+			for _, goast := range []bool{false, true} {
+				n++
+				if !pbt.RunOne(t, P, Case{Kind: "text", Text: "(let (vf " + f + ") " + u + ")", GoAST: goast}) {
+					return
+				}
+			}
+		}
+	}
+	pbt.Exhaustive(fmt.Sprintf("%d function values x %d uses x {read, Go-built}", len(fnValues), len(fnUses)), n)
+}
+
+// TestTryFaults: every fault in every position of a try form (body, handler tail / non-tail, finally), bare and wrapped.
+func TestTryFaults(t *testing.T) {
+	shard, _ := strconv.Atoi(os.Getenv("VERIF_SHARD"))
+	shards, _ := strconv.Atoi(os.Getenv("VERIF_SHARDS"))
+	if shards <= 0 {
+		shards = 1
+	}
+	n, i := 0, 0
+	for _, fault := range tryFaults {
+		for _, f := range tryForms(fault) {
+			for _, w := range tryWraps {
+				i++
+				if i%shards != shard {
+					continue
+				}
+				n++
+				if !pbt.RunOne(t, P, Case{Kind: "text", Text: "(do " + tryPrelude + fmt.Sprintf(w, f) + ")", GoAST: i%3 == 0}) {
+					return
+				}
+			}
+		}
+	}
+	pbt.Exhaustive(fmt.Sprintf("%d faults x try forms (3 bodies x 6 handlers x 6 finally clauses) x %d wrappers", len(tryFaults), len(tryWraps)), n)
 }
